@@ -12,7 +12,8 @@ EXPLANATION = (
     'key derived from the stored value; (A3) the instance returned by GraphProcessor.get_graph is created in '
     'that call on every path (never an object kept in a cache); (A5inv) every writer of state read by a '
     'memoised method clears the function cache; (A8k) function-cache keys are process-independent digests of '
-    'all arguments.  Not decided: value agreement create=True/False, pickle round trip, other hash seeds.')
+    'all arguments.  Not decided: value agreement create=True/False, pickle round trip, other hash seeds.'
+    " (A3) names whose object was stored into a persistent container count as persistent; (A5a) the -1 marks are overwritten in the function's own copy of the vector.")
 
 ROOTS = ['get_graph', 'get_all_discrete_x', 'get_n_valid_designs', 'get_statistics', 'get_additional_dv_stats']
 
